@@ -87,7 +87,15 @@ fn label_fd<U: User, E: Engine<U>>(x: LTerm<U, E>) -> Goal<U, E> {
         fngoal | engine,
         state | {
             state.verify_all_bound();
-            let bound_x = state.dstore_ref().keys().cloned().collect::<LTerm<U, E>>();
+            // The remaining domain variables are labeled in the order of their variable ids,
+            // not in the randomised iteration order of the map: the first labeling found is
+            // the one that is kept.
+            let mut keys = state.dstore_ref().keys().cloned().collect::<Vec<LTerm<U, E>>>();
+            keys.sort_by_key(|x| match x.as_ref() {
+                LTermInner::Var(id, _) => Some(*id),
+                _ => None,
+            });
+            let bound_x = keys.into_iter().collect::<LTerm<U, E>>();
             proto_vulcan!( onceo { force_ans(bound_x) } ).solve(engine, state)
         }
     ])
